@@ -37,7 +37,9 @@ def extendsOpts (o : Opts) : Opts :=
 structure BaseFile where
   /-- the reference string, as `extends.file` spells it (after `ResolveRelativePaths` of an extended file: absolute) -/
   ref : String
-  /-- `loader.Dir(refPath)`: the directory relative paths inside the file are anchored at -/
+  /-- `loader.Dir(refPath)`: the directory relative paths inside the file are anchored at — for the local resource loader the
+  file's directory RELATIVE to the loader's working directory (`.`, `sub`): the paths of an extended file come out
+  relative and it is the main pipeline's `ResolveRelativePaths` (if on) that makes them absolute -/
   relDir : String
   /-- its `---` documents -/
   docs : List KVs
